@@ -492,7 +492,8 @@ int main(int argc, char** argv) {
   const int depth = static_cast<int>(opt.num("depth", 2));
   if (opt.mode == "types") {
     res.property = "C03";
-    rsgen::Generator gen(setup.ref); gen.leaves = leafPool(false); gen.repsPerKey = static_cast<size_t>(opt.num("reps", 2)); gen.bodyReps = static_cast<size_t>(opt.num("bodyreps", 3));
+    rsgen::Generator gen(setup.ref); gen.leaves = leafPool(false); gen.repsPerKey = static_cast<size_t>(opt.num("reps", 2)); gen.bodyReps = static_cast<size_t>(opt.num("bodyreps", 3)); gen.bothDeep = opt.num("bothdeep", 1) != 0;
+    if (depth >= 2) gen.prepareDepth2();   // in the parent: shared by all workers
     res.rep = run_sharded(opt, "types", [&](Ctx& c) { run_types(c, setup, gen, depth); }, &ri);
     res.states = res.rep.counters["evaluations"] + res.rep.counters["unasserted_logic_global_at_root"];
     res.completed_bound = "every constructor over all leaves (depth 1) and over leaves + " + std::to_string(gen.repsPerKey) + " representatives per (constructor,type) of depth 1 (depth " + std::to_string(depth) + "), binders with bodies one level deep in the extended environment; function definitions and global declarations on top";
@@ -502,8 +503,9 @@ int main(int argc, char** argv) {
     res.property = cmp ? "C01" : "C02";
     rsgen::Generator gen(setup.ref); gen.leaves = leafPool(cmp); gen.repsPerKey = static_cast<size_t>(opt.num("reps", 1));
     const int maxBase = static_cast<int>(opt.num("base", 2));
-    gen.bodyReps = static_cast<size_t>(opt.num("bodyreps", 1));
+    gen.bodyReps = static_cast<size_t>(opt.num("bodyreps", 1)); gen.bothDeep = opt.num("bothdeep", 1) != 0;
     const bool fullProduct = opt.num("fullproduct", 0) != 0;
+    if (depth >= 2) gen.prepareDepth2();
     res.rep = run_sharded(opt, opt.mode, [&](Ctx& c) { run_eval(c, setup, gen, depth, cmp, maxBase, fullProduct); }, &ri);
     res.states = res.rep.counters["evaluations"];
     res.completed_bound = "expressions: every constructor over all leaves (depth 1)" + std::string(depth >= 2 ? " and over leaves + representatives of depth 1 (depth 2)" : "") + "; data: every interpretation of the mentioned globals over base sets of <= " + std::to_string(maxBase) + " elements (all subsets for S1 S2 D1, all elements for D2)" + std::string(fullProduct ? ", full product" : "; when the product exceeds 64 interpretations: one global varies over all its values while the others hold their fullest value, plus the all-empty interpretation");
